@@ -12,8 +12,9 @@
 #include <dispatch/private.h>
 #include <sched.h>
 
-enum { AQ_GLOBAL, AQ_AUTO, AQ_SERIAL, AQ_CONC, AQ_CONC_OVER_SERIAL, AQ_CONC_OVER_CONC, AQ_SERIAL_OVER_CONC, AQ_NKINDS };
-static const char *const aq_names[] = { "global", "auto", "serial", "concurrent", "concurrent->serial", "concurrent->concurrent", "serial->concurrent" };
+enum { AQ_GLOBAL, AQ_AUTO, AQ_SERIAL, AQ_CONC, AQ_CONC_OVER_SERIAL, AQ_CONC_OVER_CONC, AQ_SERIAL_OVER_CONC, AQ_NEST, AQ_NKINDS };
+static const char *const aq_names[] = { "global", "auto", "serial", "concurrent", "concurrent->serial", "concurrent->concurrent", "serial->concurrent",
+	"concurrent (no barriers, applies nested onto the same queue)" };
 
 typedef struct { uint32_t count; int tid; uint64_t start, end; } aidx_t;
 typedef struct arec {
@@ -42,7 +43,7 @@ typedef struct atrial {
 static size_t pick_n(vf_rng_t *r, int depth)
 {
 	int cpu = vf_opts.ncpu;
-	if (depth > 0) return vf_rnd_range(r, 1, 12);
+	if (depth > 0) return vf_rnd_n(r, 4) == 0 ? 1 : vf_rnd_range(r, 1, 12);
 	uint32_t c = vf_rnd_n(r, 16);
 	switch (c) {
 	case 0: return 0;
@@ -76,7 +77,9 @@ static void abody(void *ctx, size_t i)
 	if (a->depth < 2 && a->nest_pct && (int)vf_rnd_n(&r, 100) < a->nest_pct) {
 		/* nested apply: only onto global queues / AUTO (a nested synchronous call into the
 		 * hierarchy the iteration runs under would be a client deadlock) */
-		do_apply(a->t, &r, vf_rnd_n(&r, 2) ? AQ_GLOBAL : AQ_AUTO, a->depth + 1);
+		/* ... except on the dedicated concurrent queue that never sees a barrier: there a nested apply onto the
+		 * SAME queue is legitimate (iterations are non-barrier items) and must return like any other */
+		do_apply(a->t, &r, a->qkind == AQ_NEST ? AQ_NEST : vf_rnd_n(&r, 2) ? AQ_GLOBAL : AQ_AUTO, a->depth + 1);
 	}
 	if (c == 0) x->end = vf_stamp();
 	vf_progress();
@@ -90,6 +93,7 @@ static void do_apply(atrial_t *t, vf_rng_t *r, int qkind, int depth)
 	a->idx = calloc(a->n + 1, sizeof(aidx_t));
 	a->body_ns = a->n > 5000 ? 0 : vf_rnd_n(r, 4) * 3000;
 	a->nest_pct = (depth < 2 && a->n <= 300) ? (int)vf_rnd_n(r, 3) * 4 : 0;
+	if (qkind == AQ_NEST && depth < 2 && a->n <= 300) a->nest_pct = 25;
 	a->fform = (int)vf_rnd_n(r, 2);
 	dispatch_queue_t q;
 	if (qkind == AQ_AUTO) q = DISPATCH_APPLY_AUTO;
@@ -179,6 +183,7 @@ static void run_trial(int idx)
 	t->qs[AQ_CONC_OVER_SERIAL] = dispatch_queue_create_with_target("vf.apply.conc-over-serial", DISPATCH_QUEUE_CONCURRENT, t->bottoms[0]);
 	t->qs[AQ_CONC_OVER_CONC] = dispatch_queue_create_with_target("vf.apply.conc-over-conc", DISPATCH_QUEUE_CONCURRENT, t->bottoms[1]);
 	t->qs[AQ_SERIAL_OVER_CONC] = dispatch_queue_create_with_target("vf.apply.serial-over-conc", DISPATCH_QUEUE_SERIAL, t->bottoms[1]);
+	t->qs[AQ_NEST] = dispatch_queue_create("vf.apply.nest", DISPATCH_QUEUE_CONCURRENT);
 	t->ncallers = (int)vf_rnd_range(&r, 1, 6);
 	t->napplies = (int)((long)(prof.kind == VF_P_OFF ? 40 : 14) * vf_opts.scale / 100) + 1;
 	t->barcap = 20000;
